@@ -811,10 +811,16 @@ func (b *Base) Refine(x *Exec, cond ast.Expr, truth bool, s St) []St {
 				}
 				return []St{s}
 			}
-			lt, ok1 := b.Term(x, c.X, s)
-			rt, ok2 := b.Term(x, c.Y, s)
+			lt, ok1 := b.VTerm(x, c.X, s)
+			rt, ok2 := b.VTerm(x, c.Y, s)
 			if !ok1 || !ok2 {
 				return []St{s}
+			}
+			if strings.HasPrefix(lt, "#") && strings.HasPrefix(rt, "#") {
+				if (lt == rt) == eq {
+					return []St{s}
+				}
+				return nil
 			}
 			// a nil-valued variable never equals a non-nil sentinel
 			if isIfaceOrPtr(info.TypeOf(c.X)) {
@@ -1297,6 +1303,20 @@ func (b *Base) node1(x *Exec, n ast.Node, s St) []St {
 		}
 		return []St{st}
 	case *ast.IncDecStmt:
+		// small counters (proxyCount++) stay known constants
+		if t, ok := b.LTerm(x, n.X, s); ok {
+			if cv := s.Get("c:" + t); cv != "" {
+				if v, err := strconv.ParseInt(cv, 10, 64); err == nil && v > -64 && v < 64 {
+					if n.Tok == token.INC {
+						v++
+					} else {
+						v--
+					}
+					st := b.AssignValue(x, n.X, nil, s)
+					return []St{st.Set("c:"+t, strconv.FormatInt(v, 10))}
+				}
+			}
+		}
 		return []St{b.AssignValue(x, n.X, nil, s)}
 	case *ast.ExprStmt:
 		if call, ok := ast.Unparen(n.X).(*ast.CallExpr); ok {
@@ -1372,7 +1392,7 @@ func (b *Base) return1(x *Exec, ret *ast.ReturnStmt, s St) []St {
 		rts := resultTerms(x.Fn)
 		if len(ret.Results) == len(rts) {
 			// evaluate all results first, then assign
-			type val struct{ n, b string }
+			type val struct{ n, b, c string }
 			vals := make([]val, len(rts))
 			for i, e := range ret.Results {
 				typ := x.Fn.Info.TypeOf(e)
@@ -1382,6 +1402,11 @@ func (b *Base) return1(x *Exec, ret *ast.ReturnStmt, s St) []St {
 				if isBoolType(typ) {
 					vals[i].b = b.Bool(x, e, s)
 				}
+				if isIntType(typ) {
+					if vt, ok := b.VTerm(x, e, s); ok && strings.HasPrefix(vt, "#") {
+						vals[i].c = vt[1:]
+					}
+				}
 			}
 			for i, t := range rts {
 				s = b.Invalidate(s, t)
@@ -1390,6 +1415,9 @@ func (b *Base) return1(x *Exec, ret *ast.ReturnStmt, s St) []St {
 				}
 				if vals[i].b != "" {
 					s = s.Set("b:"+t, vals[i].b)
+				}
+				if vals[i].c != "" {
+					s = s.Set("c:"+t, vals[i].c)
 				}
 			}
 		}
@@ -1457,10 +1485,10 @@ func (b *Base) InlineCall(x *Exec, call *ast.CallExpr, fi *FuncInfo, lhs []ast.E
 	for _, e := range exits {
 		st := e.S
 		// bind results
-		type val struct{ n, b string }
+		type val struct{ n, b, c string }
 		vals := make([]val, len(rts))
 		for i, t := range rts {
-			vals[i] = val{st.Get("n:" + t), st.Get("b:" + t)}
+			vals[i] = val{st.Get("n:" + t), st.Get("b:" + t), st.Get("c:" + t)}
 		}
 		// facts about the fields of a returned local struct (return &h, nil)
 		// follow the value to the variable it is assigned to
@@ -1502,7 +1530,7 @@ func (b *Base) InlineCall(x *Exec, call *ast.CallExpr, fi *FuncInfo, lhs []ast.E
 				if id, ok := l.(*ast.Ident); ok && id.Name == "_" {
 					continue
 				}
-				t, ok := b.Term(x, l, st)
+				t, ok := b.LTerm(x, l, st)
 				if !ok {
 					continue
 				}
@@ -1512,6 +1540,9 @@ func (b *Base) InlineCall(x *Exec, call *ast.CallExpr, fi *FuncInfo, lhs []ast.E
 				}
 				if vals[i].b != "" {
 					st = st.Set("b:"+t, vals[i].b)
+				}
+				if vals[i].c != "" {
+					st = st.Set("c:"+t, vals[i].c)
 				}
 			}
 		} else {
